@@ -88,10 +88,29 @@ func genWireSet(t *rapid.T, allowSingle bool) ovsdb.OvsSet {
 
 func genWireMap(t *rapid.T) ovsdb.OvsMap {
 	kk := rapid.IntRange(0, 3).Draw(t, "keykind")
-	vk := rapid.IntRange(0, 3).Draw(t, "valkind")
+	vk := rapid.IntRange(0, 4).Draw(t, "valkind")
 	n := rapid.SampledFrom([]int{0, 1, 1, 2, 3}).Draw(t, "maplen")
 	m := ovsdb.OvsMap{GoMap: make(map[interface{}]interface{}, n)}
 	for tries := 0; len(m.GoMap) < n && tries < 20; tries++ {
+		if vk == 4 {
+			// a set of uuids nested inside the map (none, or two and more: one element is
+			// written as the bare uuid)
+			set := ovsdb.OvsSet{GoSet: []interface{}{}}
+			seen := map[string]bool{}
+			for want, tries2 := rapid.SampledFrom([]int{0, 2, 2, 3}).Draw(t, "nestedlen"), 0; len(set.GoSet) < want && tries2 < 20; tries2++ {
+				u := genWireUUID(t)
+				if !seen[u.GoUUID] {
+					seen[u.GoUUID] = true
+					set.GoSet = append(set.GoSet, u)
+				}
+			}
+			if len(set.GoSet) == 1 {
+				set.GoSet = set.GoSet[:0]
+			}
+			m.GoMap[genWireAtom(t, kk)] = set
+			kit.Label("C12", "map:values-are-sets-of-uuids")
+			continue
+		}
 		m.GoMap[genWireAtom(t, kk)] = genWireAtom(t, vk)
 	}
 	return m
